@@ -35,6 +35,7 @@ type rig struct {
 	panicSeen  map[*lib.Server]int
 	mu         sync.Mutex
 	ran        map[string]int  // cases run so far, by "op/fault"
+	lastOpen   int             // backend connections open at the end of the previous read case
 	attributed int             // open backend connections already reported under a fault class
 	used       map[string]bool // keys handed out so far
 	lies       map[string]bool // keys for which the backend lied self-consistently (their cached form is not judged)
